@@ -72,6 +72,13 @@ def make (c):
     if c ['fam'] == 'graph':
         rng  = np.random.default_rng ([c ['seed'], 9, c ['i']])
         spec = graphs.make_graph (rng, seg = (1, 4))
+        # tapered wires (explicitly tagged ones: the option names a tag): tapers that fit, and tapers that do not
+        # fit their minimum - the program then segments the wire equally - at either end of the wire
+        rt = np.random.default_rng ([c ['seed'], 91, c ['i']])
+        for g in spec ['geo']:
+            if g ['k'] == 'w' and g.get ('tag') is not None and g ['n'] >= 2 and rt.random () < 0.3:
+                sl = float (np.linalg.norm (np.array (g ['p2']) - np.array (g ['p1'])) / g ['n'])
+                g ['taper'] = [int (rt.integers (1, 4)), (None if rt.random () < 0.5 else 1.5 * sl), None]
         return spec
     if c ['fam'] == 'ring':
         return make_ring (c)
